@@ -8,7 +8,11 @@ Hand-written and in the trusted base; every primitive is compared with CPython o
 Deliberate restrictions (the translator refuses, or the harness marks the input unsupported, outside them):
   * `lower` / `upper` / `capitalize` are the ASCII maps (CPython's are full Unicode): inputs are ASCII;
   * `replace` / `split` take a non-empty separator;
-  * only `e.split(sep)[0]` is an index expression (it cannot raise).
+  * index expressions `s[k]` / `xs[k]` (constant `k`) are total here (`idxStr` / `idxList` answer `[]` out of range) and every
+    translated function that contains one gets a companion `<f>_ok` that is true exactly when all the index expressions
+    evaluated on the path taken are in range — Python raises IndexError exactly when it is false; theorems carry it as a
+    hypothesis, the driver answers `raised: IndexError` when it is false, T2 compares that with CPython too;
+  * a match object is its group 0 (`Option Str`); `m[0]` is only translated under `if m …:`.
 No Mathlib.
 -/
 namespace GapicModel.PyRt
@@ -137,5 +141,30 @@ def sortStr (xs : List Str) : List Str := xs.foldr insertStr []
 def dedup (xs : List Str) : List Str := xs.eraseDups
 
 def strIn (x : Str) (xs : List Str) : Bool := xs.contains x
+
+/-- `-n ≤ k < n`: the index `k` is valid for a sequence of length `n` -/
+def inRange (n : Int) (k : Int) : Bool := decide (-n ≤ k) && decide (k < n)
+
+/-- `xs[k]` (total: `[]` when out of range, see `inRange`) -/
+def idxList (xs : List Str) (k : Int) : Str :=
+  if k < 0 then (if (xs.length : Int) + k < 0 then [] else xs.getD ((xs.length : Int) + k).toNat [])
+  else xs.getD k.toNat []
+
+/-- `s[k]` as a one-character string (total: `[]` when out of range) -/
+def idxStr (s : Str) (k : Int) : Str :=
+  if k < 0 then (if (s.length : Int) + k < 0 then [] else ((s.drop ((s.length : Int) + k).toNat).take 1))
+  else (s.drop k.toNat).take 1
+
+/-- `re.match(p, s)` as its group 0 -/
+def reMatchText (p : Re) (s : Str) : Option Str := (pyMatch T p s).map fun m => s.take m.stop
+/-- `m[0]` of a match object known to be truthy -/
+def matchText (m : Option Str) : Str := m.getD []
+
+/-- `gapic.utils.imp.Import(package, module, alias)` -/
+structure PyImport where
+  package : List Str
+  module : Str
+  alias : Str
+deriving Repr, DecidableEq
 
 end GapicModel.PyRt
